@@ -35,6 +35,12 @@ func newStringPrefixFilter(code *syntax.Code) StringPrefixFilter {
 	if code.HasOpcode(syntax.Start) {
 		return nil
 	}
+	// The filter compares raw bytes, but an invalid byte is decoded to U+FFFD before the
+	// engine sees it, so a literal U+FFFD cannot be searched for in the undecoded string.
+	if stringFilterLiteralsContain(opts, utf8.RuneError) {
+		return nil
+	}
+
 	switch opts.FindMode {
 	case syntax.LeadingString_LeftToRight:
 		return stringIndexPrefixFilter(opts.LeadingPrefix, false, minRequiredLength)
@@ -62,6 +68,29 @@ func newStringPrefixFilter(code *syntax.Code) StringPrefixFilter {
 	default:
 		return nil
 	}
+}
+
+// stringFilterLiteralsContain reports whether any literal the string filters search for contains r.
+func stringFilterLiteralsContain(opts *syntax.FindOptimizations, r rune) bool {
+	if strings.ContainsRune(opts.LeadingPrefix, r) || strings.ContainsRune(opts.FixedDistanceLiteral.S, r) || opts.FixedDistanceLiteral.C == r {
+		return true
+	}
+	for _, p := range opts.LeadingPrefixes {
+		if strings.ContainsRune(p, r) {
+			return true
+		}
+	}
+	for _, set := range opts.FixedDistanceSets {
+		if strings.ContainsRune(string(set.Chars), r) || (set.Range != nil && set.Range.First <= r && r <= set.Range.Last) {
+			return true
+		}
+	}
+	if lal := opts.LiteralAfterLoop; lal != nil {
+		if strings.ContainsRune(lal.String, r) || lal.Char == r || strings.ContainsRune(string(lal.Chars), r) {
+			return true
+		}
+	}
+	return false
 }
 
 type asciiSetStringScanner struct {
